@@ -1,11 +1,16 @@
 """C13 - fossil collection never discards what a legal rollback can need."""
 from props import runlib
+from props import alloc_C13
 
 THEOREMS = ["RootSim.C05LP.rollback_after_fossil_exact", "RootSim.C05LP.run_exact", "RootSim.LP.fossil_inv",
             "RootSim.LP.rollback_exact"]
 
 
 def run(ctx):
+    # allocator level (work package ALLOC): model of buddy.c/multi.c/ckpt.c, API-level correspondence
+    alloc_C13.run(ctx)
+    alloc_cov = dict(ctx.coverage)
+    # LP level: model of process.c/fossil.c, full-run re-execution
     ctx.trusted += ["sequentially consistent execution under the token scheduler",
                     "LP-level model: a checkpoint is the state itself (allocator-level log handling: ALLOC part)"]
     ctx.assumptions += ["V1 deterministic handlers", "GVT values handed to fossil collection are safe lower bounds (C04)"]
@@ -19,3 +24,4 @@ def run(ctx):
         ctx.coverage["fossil_collections"] = agg.tot.get("fossil", 0)
         ctx.coverage["rule"] = ("seeded GenModel runs with short GVT periods; non-trivial = rollbacks executed on an LP after at least one "
                                 "fossil collection of that LP, each checked for exact state (S oracle digest + Lean re-execution)")
+    ctx.coverage["allocator_level"] = {k: v for k, v in alloc_cov.items() if k in ("evaluations", "distinct_nontrivial", "rule", "input_distribution", "correspondence")}
